@@ -245,7 +245,7 @@ def main():
     common.setup_env()
     seed = common.seed()
     only = set(args.envs.split(",")) if args.envs else None
-    PARTIAL[0] = bool(only) and not args.replay
+    PARTIAL[0] = bool(only)
     prop = args.prop
     if args.replay:
         with open(args.replay) as f:
@@ -254,6 +254,7 @@ def main():
         seed = rp.get("seed", seed)
         args.tier = rp.get("tier", args.tier)
         prop = rp.get("property", prop)
+    PARTIAL[0] = bool(only) or bool(os.environ.get("VERIF_REPO"))   # development runs never touch the registered evidence
     if prop in ENV_PROPS:
         rc = run_env_prop(prop, args.tier, seed, only)
     elif prop in LIB_PROPS:
